@@ -530,6 +530,9 @@ def ser_run(case):
             # alignments for a second cognate-id column: one more section of <msa> blocks in the file
             obj.add_alignments(ref=case["second_ref"])
             obj.align(method="progressive", ref=case["second_ref"])
+            # align() writes its rows into the one ALIGNMENT column: finish with the main reference column, so that
+            # the column agrees with msa['cogid'] (the invariant the state model is compared under)
+            obj.align(method="progressive", swap_check=bool(case.get("swap_check")))
         if h == 0 and case["type"] == "alignments" and case.get("consensus") and obj.msa["cogid"]:
             # (get_consensus needs at least one aligned cognate set)
             obj.align(method="progressive", swap_check=bool(case.get("swap_check")))
